@@ -518,7 +518,7 @@ pub fn property() -> Property {
             SubCheck::index("exh3", "all sequences of 3 adversarial telegrams in each of 8 FDL states x 3 setups", |i, obs| exhaustive_case(i, 3, obs)),
         ],
         plan: |tier| match tier {
-            Tier::Quick => vec![Step::Enumerate { kind: "exh2", count: 24 * 14 * 14 }, Step::Pbt { kind: "programs", cases: 4000, max_len: 220 }],
+            Tier::Quick => vec![Step::Enumerate { kind: "exh2", count: 24 * 14 * 14 }, Step::Pbt { kind: "programs", cases: 16_000, max_len: 220 }],
             Tier::Thorough => vec![
                 Step::Enumerate { kind: "exh3", count: 24 * 14 * 14 * 14 },
                 Step::Pbt { kind: "programs", cases: 150_000, max_len: 220 },
